@@ -223,7 +223,7 @@ func (w *world) reg(c *sysCall) *sysCall {
 	return c
 }
 
-func (w *world) pick(n int) int { return w.rng.Intn(n) }
+func (w *world) pick(n int) int        { return w.rng.Intn(n) }
 func (w *world) chance(p float64) bool { return w.rng.Float64() < p }
 
 func randBig(r *rand.Rand, max *big.Int) *big.Int {
